@@ -124,6 +124,23 @@ Proof. eexists. split; [vm_compute; reflexivity|]. vm_compute. repeat split. Qed
 Lemma wp3_ok : plan_ok wp3 /\ NoDup (map sid wp3).
 Proof. apply (wf_plan_ok (topo_order wp3)). vm_compute. reflexivity. Qed.
 
+(* ---- a stream closed in the middle of a drain: both steps are collected in one scan, the consumer takes the first item
+        (the most recently collected: dict.popitem) and closes the generator: the other result is never delivered; clean-up as
+        on every exit ---- *)
+Definition wc_thr_stream : cfg :=
+  {| cplan := wp2; mp := false; cstream := true; wof := fun _ => 0; wdrop := fun _ => 0; children := fun _ => []; wfail := nof |}.
+Definition tr_partial_prefix : list label :=
+  [OHead; OExec true; OExec true; OEndScan; WDone 0; WDone 1; OHead; OPoll []; OCollect true; OPoll []; OCollect true; OEndScan].
+Definition tr_partial_abandon : list label := tr_partial_prefix ++ [OAbandon; OArtifacts true; OJoin 0; OJoin 1; OClose; ODropAll true].
+Lemma ex_partial_abandon_l : exists st, exec wc_thr_stream pinit tr_partial_abandon = Some st /\ pc st = PExited XAbandon /\
+  yielded (o st) = [1; 0] /\ undelivered st = [0] /\ joined (ws st 0) = true /\ joined (ws st 1) = true.
+Proof. eexists. split; [vm_compute; reflexivity|]. vm_compute. repeat split. Qed.
+(* the same run consumed to the end: second item, then the loop head finds everything finished *)
+Definition tr_partial_full : list label := tr_partial_prefix ++ [ONext; OResume; OHead; OArtifacts true; OJoin 0; OJoin 1; OClose; ODropAll true].
+Lemma ex_partial_full_l : exists st, exec wc_thr_stream pinit tr_partial_full = Some st /\ pc st = PExited XNormal /\
+  yielded (o st) = [1; 0] /\ undelivered st = [].
+Proof. eexists. split; [vm_compute; reflexivity|]. vm_compute. repeat split. Qed.
+
 (* the projection of the fault-free run onto Orch.v events, and its outcome *)
 Lemma ex_projection_l : fst (proj (wc_mp nof) pinit tr_mp_ok ([], [])) = [EScan; EDone 0 true; EDone 1 true; EScan] /\
   loop_head wp2 (run false false nofail wp2 (fst (proj (wc_mp nof) pinit tr_mp_ok ([], [])))) = ExitNormal.
